@@ -429,7 +429,10 @@ def vfmt(v):
     return repr(v)
 
 
-MUTATORS = {"push", "push_back", "insert", "extend", "push_str", "append", "clear", "sort", "sort_keys", "dedup", "truncate", "remove", "pop"}
+MUTATORS = {"push", "push_back", "insert", "extend", "push_str", "append", "clear", "sort", "sort_keys", "dedup", "truncate", "remove", "pop",
+            "sort_unstable", "sort_by", "sort_by_key", "sort_unstable_by", "sort_unstable_by_key", "sort_by_cached_key", "sort_unstable_keys", "sort_unstable_by_key", "reverse", "retain",
+            "swap_remove", "shift_remove", "swap_remove_index", "shift_remove_index", "rotate_left", "rotate_right", "dedup_by_key", "dedup_by", "push_front", "pop_front", "pop_back",
+            "insert_sorted", "shift_insert", "move_index", "swap_indices", "drain"}
 
 
 def strip_refs(e):
@@ -2522,6 +2525,8 @@ class Ev:
                 return Poly.atom(("ediv", recv.key(), args[0].key()))      # floor division for a positive divisor: its own atom, never merged with idiv
             if m in ("checked_sub", "checked_add", "checked_mul", "checked_div") and len(args) == 1 and recv.order == 0:
                 return Sym("checked", m[8:], vkey(recv), vkey(args[0]))
+            if m == "abs_sub" and len(args) == 1 and isinstance(args[0], Poly) and recv.order == 0:
+                return Poly.atom(("abs_sub", recv.key(), args[0].key()))   # the positive difference max(a - b, 0): its own atom
             if m == "mul_add" and len(args) == 2:
                 return recv * args[0] + args[1]
             if m == "cmp" and len(args) == 1 and isinstance(args[0], Poly) and recv.order == 0:
